@@ -44,6 +44,37 @@ def _run(rnd, n, one):
     return dict(tried=tried, distinct=len(seen), hit=None)
 
 
+class UnhandledErrors:
+    """collects errors Twisted reports as unhandled (a Deferred garbage-collected with a failure nobody consumed, or an
+    exception raised inside a callback chain and never trapped)"""
+
+    def __init__(self):
+        self.seen = []
+
+    def __enter__(self):
+        from twisted.python import log as tlog
+        self._obs = lambda ev: self.seen.append(dict(ev)) if ev.get('isError') else None
+        tlog.addObserver(self._obs)
+        return self
+
+    def __exit__(self, *a):
+        import gc
+        from twisted.python import log as tlog
+        gc.collect()
+        tlog.removeObserver(self._obs)
+
+    def bad(self, ignore=()):
+        out = []
+        for ev in self.seen:
+            f = ev.get('failure') or ev.get('log_failure')
+            if f is None and 'Unhandled error in Deferred' in str(ev.get('log_format') or ev.get('message')):
+                continue             # header line; the failure itself is the next event
+            name = f.type.__name__ if f is not None else 'error'
+            if name not in ignore:
+                out.append((name, (str(f.value)[:120] + ' @ ' + ' <- '.join('%s:%d' % (fr[0], fr[2]) for fr in reversed(f.frames[-3:]))) if f is not None else (str(ev.get('why') or ev.get('log_format') or ev.get('message'))[:200] + ' ' + str(ev.get('log_failure') or ev.get('debugInfo') or '')[:600])))
+        return out
+
+
 class Enumerator:
     """stands in for random.Random in a scenario: every `choice` is a recorded choice point, and `_run_exhaustive`
     re-runs the scenario over all choice sequences (depth-first, odometer order) - a bounded exhaustive search"""
@@ -593,6 +624,9 @@ def scenario_metadata_merge(rnd, n):
         def updateMetadata(self, meta):
             self.meta = meta
 
+        host = property(lambda self: self.meta.host)
+        port = property(lambda self: self.meta.port)
+
         def close(self):
             self.closed = True
             return defer.succeed(None)
@@ -607,9 +641,9 @@ def scenario_metadata_merge(rnd, n):
         known = {}
         for step in range(r.choice([2, 3, 4])):
             ids = r.sample([1, 2, 3, 4], r.choice([0, 1, 2, 3]) if step else r.choice([1, 2, 3]))
-            gen = r.choice([0, 1])
-            brokers = {i: BrokerMetadata(i, 'h%d-%d' % (i, gen), 9000 + i + gen) for i in ids} or \
-                {1: BrokerMetadata(1, 'h1-%d' % gen, 9001 + gen)}
+            gen = (r.choice([0, 1]), r.choice([0, 1]))       # host and port change independently
+            brokers = {i: BrokerMetadata(i, 'h%d-%d' % (i, gen[0]), 9000 + i + 10 * gen[1]) for i in ids} or \
+                {1: BrokerMetadata(1, 'h1-%d' % gen[0], 9001 + 10 * gen[1])}
             if not ids:
                 brokers_for_call = {}
             else:
@@ -714,8 +748,8 @@ def scenario_handle_responses(rnd, n):
                 if fail:
                     must_raise = True
                     break
-            elif c != 0:
-                must_raise = True          # any other broker error is raised to the caller (raise_for_errno)
+            elif c != 0 and fail:
+                must_raise = True          # any other broker error is raised only to a caller that asked to fail on errors
                 break
         for t in ('a', 'b'):
             cached = t in client.topic_partitions or any(k.topic == t for k in client.topics_to_brokers)
@@ -1220,7 +1254,7 @@ def scenario_producer_e2e(rnd, n):
 
     def one(r, script):
         clock = task.Clock()
-        client = KafkaClient(hosts='h:1', reactor=clock, enable_protocol_version_discovery=False, timeout=30.0)
+        client = KafkaClient(hosts='h:1', reactor=clock, enable_protocol_version_discovery=False, timeout=30000)
         world = dict(log=[], leaders={0: r.choice([1, 2]), 1: r.choice([1, 2])}, stopped=False)
         fakes = {1: FakeBC(world, 1), 2: FakeBC(world, 2)}
         brokers = {i: BrokerMetadata(i, 'b%d' % i, 9092) for i in (1, 2)}
@@ -1396,3 +1430,327 @@ def scenario_producer_e2e(rnd, n):
 
 
 SCENARIOS['producer_e2e'] = scenario_producer_e2e
+
+
+# ---------------------------------------------------------------------------------------------- consumer end to end (C02 C03 C12 C13)
+
+def _parse_consumer_request(data):
+    """-> dict(kind, corr, ...) for the four request kinds a Consumer issues (written from the protocol guide)"""
+    import struct
+    api_key, api_version, corr, cl = struct.unpack('>hhih', data[:10])
+    p = 10 + max(cl, 0)
+
+    def rstr(p):
+        n = struct.unpack('>h', data[p:p + 2])[0]
+        return data[p + 2:p + 2 + n].decode(), p + 2 + n
+
+    out = dict(api_key=api_key, api_version=api_version, corr=corr)
+    if api_key == 1:
+        replica, wait, minb, nt = struct.unpack('>iiii', data[p:p + 16])
+        p += 16
+        topic, p = rstr(p)
+        npart, part, off, maxb = struct.unpack('>iiqi', data[p:p + 20])
+        assert nt == 1 and npart == 1 and p + 20 == len(data)
+        out.update(kind='fetch', topic=topic, partition=part, offset=off, max_bytes=maxb)
+    elif api_key == 2:
+        replica, nt = struct.unpack('>ii', data[p:p + 8])
+        p += 8
+        topic, p = rstr(p)
+        npart, part, time_, maxo = struct.unpack('>iiqi', data[p:p + 20])
+        assert nt == 1 and npart == 1 and p + 20 == len(data)
+        out.update(kind='offset', topic=topic, partition=part, time=time_)
+    elif api_key == 8:
+        group, p = rstr(p)
+        gen = struct.unpack('>i', data[p:p + 4])[0]
+        p += 4
+        member, p = rstr(p)
+        nt = struct.unpack('>i', data[p:p + 4])[0]
+        p += 4
+        topic, p = rstr(p)
+        npart, part, off, ts = struct.unpack('>iiqq', data[p:p + 24])
+        out.update(kind='commit', group=group, topic=topic, partition=part, offset=off)
+    elif api_key == 9:
+        group, p = rstr(p)
+        nt = struct.unpack('>i', data[p:p + 4])[0]
+        p += 4
+        topic, p = rstr(p)
+        npart, part = struct.unpack('>ii', data[p:p + 8])
+        out.update(kind='offset_fetch', group=group, topic=topic, partition=part)
+    else:
+        raise AssertionError('unexpected api key %d from a consumer' % api_key)
+    return out
+
+
+def scenario_consumer_e2e(rnd, n):
+    """Consumer composed with the real KafkaClient and codec over a simulated broker holding a log with compaction gaps,
+    compressed wrappers in both message formats and fetch-size truncation: in-order exactly-once delivery of exactly the
+    log's content (C02, C12), commits never ahead of successful processing (C03), quiescence after stop (C13)"""
+    import struct
+    from afkak import KafkaClient, Consumer
+    from afkak.common import (BrokerMetadata, TopicAndPartition, OFFSET_EARLIEST, OFFSET_COMMITTED)
+    from specs import prims as P
+
+    class FakeBC:
+        def __init__(self, world):
+            self.world = world
+            self.node_id, self.host, self.port = 1, 'b1', 9092
+
+        def makeRequest(self, correlationId, request, expectResponse=True):
+            d = defer.Deferred()
+            q = _parse_consumer_request(request)
+            if q['corr'] != correlationId:
+                raise Hit('C04:correlation-id-in-header-differs', (q['corr'], correlationId))
+            q['d'] = d
+            q['after_stop'] = self.world['stopped']
+            self.world['pending'].append(q)
+            self.world['requests'].append(q)
+            return d
+
+        def connected(self):
+            return True
+
+        def disconnect(self):
+            pass
+
+        def close(self):
+            return defer.succeed(None)
+
+    def one(r, script):
+        with UnhandledErrors() as ue:
+            one_inner(r, script)
+        # only crashes inside a handler count (the handler did not finish its job); a failure nobody consumed - a cancelled
+        # simulated-broker Deferred, a second attempt to fire start()'s Deferred that Twisted refuses - is logged noise,
+        # not a violation of the statement
+        bad = [b for b in ue.bad() if b[0] in ('AttributeError', 'TypeError', 'KeyError', 'IndexError', 'NameError',
+                                                'AssertionError', 'UnboundLocalError', 'ZeroDivisionError')]
+        if bad:
+            raise Hit('C13:unexpected-exception-%s' % bad[0][0], bad)
+
+    def one_inner(r, script):
+        clock = task.Clock()
+        client = KafkaClient(hosts='h:1', reactor=clock, enable_protocol_version_discovery=False, timeout=30000)
+        world = dict(pending=[], requests=[], stopped=False, committed=None)
+        bc = FakeBC(world)
+        b1 = BrokerMetadata(1, 'b1', 9092)
+        client._brokers[1] = b1
+        client._get_brokerclient = lambda nid: bc
+
+        def load_md(*topics):
+            client.topic_partitions['t'] = [0]
+            client.topic_errors['t'] = 0
+            client.topics_to_brokers[TopicAndPartition('t', 0)] = b1
+            return defer.succeed(None)
+
+        def load_coord(group):
+            client._group_to_coordinator[group] = b1
+            return defer.succeed(None)
+
+        client.load_metadata_for_topics = load_md
+        client.load_coordinator_for_group = load_coord
+        load_md()
+        # the partition log: offsets with compaction gaps, values derived from the offset
+        log = []
+        off = r.choice([0, 0, 5])
+        for _ in range(r.choice([6, 10, 14])):
+            log.append(off)
+            off += r.choice([1, 1, 1, 2, 4])
+        val = lambda o: b'value-%d' % o
+        key = lambda o: None if o % 3 == 0 else b'k%d' % o
+        group = r.random() < 0.7
+        start = r.choice([OFFSET_EARLIEST, log[0], log[min(2, len(log) - 1)], OFFSET_COMMITTED if group else log[0]])
+        world['committed'] = r.choice([None, log[1]]) if start == OFFSET_COMMITTED else None
+        invoked, proc_pending = [], []
+        state = dict(in_processor=0, failed=False, processed_ok=[], stopped=False)
+
+        def processor(consumer, block):
+            offs = [m.offset for m in block]
+            if state['stopped']:
+                raise Hit('C13:processor-invoked-after-stop', offs)
+            if state['in_processor']:
+                raise Hit('C02:processor-invoked-while-previous-result-pending', offs)
+            for m in block:
+                if m.offset not in log:
+                    raise Hit('C02:delivered-offset-not-in-the-log', m.offset)
+                if m.message.value != val(m.offset) or m.message.key != key(m.offset):
+                    raise Hit('C12:delivered-content-differs-from-the-log', (m.offset, m.message.value))
+            flat = [o for b in invoked for o in b] + offs
+            for a, b in zip(flat, flat[1:]):
+                if b <= a:
+                    raise Hit('C02:delivery-not-strictly-increasing', flat)
+            invoked.append(offs)
+            d = defer.Deferred()
+            state['in_processor'] += 1
+            proc_pending.append((d, offs))
+            return d
+
+        bufsize = r.choice([64, 160, 4096])
+        c = Consumer(client, 't', 0, processor, consumer_group='g' if group else None,
+                     auto_commit_every_n=r.choice([1, 2, 0]) if group else None, auto_commit_every_ms=0 if group else None,
+                     buffer_size=bufsize, max_buffer_size=r.choice([None, 4096]),
+                     request_retry_init_delay=0.5, request_retry_max_delay=2.0)
+        script.append(('log', log, 'start', start, 'committed', world['committed'], 'group', group, 'buffer', bufsize))
+        start_results, shutdown_results = [], []
+        c.start(start).addBoth(start_results.append)
+        expected_first = [None]
+
+        def fetch_reply(q, mode):
+            """a FetchResponse v0 for the request: the log from the wrapper/entry containing the requested offset on"""
+            avail = [o for o in log if o >= q['offset']]
+            fmt = r.choice([0, 1])
+            entries = []
+            take = avail[:r.choice([1, 2, 3, 5])]
+            if mode == 'wrapped' and take:
+                # a compressed wrapper may start BEFORE the requested offset (the broker returns whole wrappers)
+                idx = log.index(take[0])
+                first = max(0, idx - r.choice([0, 1, 2]))
+                inner_offs = log[first:idx + len(take)]
+                if fmt == 0:
+                    inner = P.nat_enc_msgset([(o, P.nat_enc_msg(0, 0, key(o), val(o))) for o in inner_offs])
+                else:
+                    # format 1: inner offsets are relative, the wrapper carries the absolute offset of the last one
+                    # only gap-free runs can be expressed relatively: the run around the first requested entry
+                    lo = hi = idx
+                    while lo > first and log[lo - 1] == log[lo] - 1:
+                        lo -= 1
+                    while hi + 1 < idx + len(take) and log[hi + 1] == log[hi] + 1:
+                        hi += 1
+                    inner_offs = log[lo:hi + 1]
+                    inner = P.nat_enc_msgset([(i, P.nat_enc_msg(1, 0, key(o), val(o), 1500000000000))
+                                              for i, o in enumerate(inner_offs)])
+                entries.append((inner_offs[-1], P.nat_wrap_gzip(fmt, inner, 1500000000000)))
+            else:
+                for o in take:
+                    entries.append((o, P.nat_enc_msg(fmt, 0, key(o), val(o), 1500000000000)))
+            ms = P.nat_enc_msgset(entries)
+            if mode == 'truncated' or len(ms) > q['max_bytes']:
+                ms = ms[:min(len(ms), q['max_bytes']) if mode != 'truncated' else max(0, min(len(ms), q['max_bytes']) - r.choice([1, 5, 13]))]
+            hw = log[-1] + 1
+            return (struct.pack('>ii', q['corr'], 1) + struct.pack('>h', 1) + b't' + struct.pack('>i', 1) +
+                    struct.pack('>ihqi', 0, 0, hw, len(ms)) + ms)
+
+        def reply(q, how):
+            script.append(('reply', q['kind'], q.get('offset'), how))
+            d = q['d']
+            if d.called:
+                return
+            if how == 'drop':
+                from afkak.common import ClientError
+                d.errback(Failure(ClientError('connection lost')))
+                return
+            hdr = struct.pack('>ii', q['corr'], 1) + struct.pack('>h', 1) + b't' + struct.pack('>i', 1)
+            if isinstance(how, int):          # error code in the partition entry
+                if q['kind'] == 'fetch':
+                    d.callback(hdr + struct.pack('>ihqi', 0, how, -1, 0))
+                elif q['kind'] == 'offset':
+                    d.callback(hdr + struct.pack('>ihi', 0, how, 0))
+                elif q['kind'] == 'commit':
+                    d.callback(hdr + struct.pack('>ih', 0, how))
+                else:
+                    d.callback(hdr + struct.pack('>iqhh', 0, -1, 0, how))
+                return
+            if q['kind'] == 'fetch':
+                d.callback(fetch_reply(q, how))
+            elif q['kind'] == 'offset':
+                d.callback(hdr + struct.pack('>ihiq', 0, 0, 1, log[0] if q['time'] == -2 else log[-1] + 1))
+            elif q['kind'] == 'commit':
+                world['committed'] = q['offset']
+                d.callback(hdr + struct.pack('>ih', 0, 0))
+            else:
+                co = -1 if world['committed'] is None else world['committed']
+                d.callback(hdr + struct.pack('>iqhh', 0, co, 0, 0))
+
+        def check():
+            if len(start_results) > 1:
+                raise Hit('C13:start-deferred-fired-twice', repr(start_results)[:200])
+            for q in world['requests']:
+                if q['kind'] == 'commit' and q['offset'] not in state['processed_ok']:
+                    raise Hit('C03:committed-offset-not-successfully-processed', (q['offset'], state['processed_ok']))
+                if q['after_stop']:
+                    raise Hit('C13:request-issued-after-stop', q['kind'])
+            if state['stopped'] and clock.getDelayedCalls():
+                raise Hit('C13:timer-left-after-stop', [str(dc) for dc in clock.getDelayedCalls()])
+
+        for step in range(r.choice([6, 10, 16])):
+            live = [q for q in world['pending'] if not q['d'].called]
+            choices = ['advance']
+            if live:
+                choices += ['reply'] * 4
+            if proc_pending:
+                choices += ['proc_ok', 'proc_ok', 'proc_ok', 'proc_fail'] if r.random() < 0.3 else ['proc_ok'] * 3
+            if not state['stopped'] and step > 2:
+                choices += ['stop'] if r.random() < 0.15 else []
+                choices += ['shutdown'] if r.random() < 0.1 and not shutdown_results else []
+                if group:
+                    choices += ['commit']
+            ev = r.choice(choices)
+            try:
+                if ev == 'advance':
+                    dt = r.choice([0, 0.5, 2.5])
+                    script.append(('advance', dt))
+                    clock.advance(dt)
+                elif ev == 'reply':
+                    q = r.choice(live)
+                    world['pending'].remove(q)
+                    how = r.choice(['plain', 'plain', 'wrapped', 'wrapped', 'truncated', 'drop', 7, 6]) if q['kind'] == 'fetch' \
+                        else r.choice(['ok', 'ok', 'ok', 'drop', 7])
+                    reply(q, how)
+                elif ev in ('proc_ok', 'proc_fail'):
+                    d, offs = proc_pending.pop(0)
+                    state['in_processor'] -= 1
+                    script.append((ev, offs))
+                    if d.called:
+                        continue
+                    if ev == 'proc_ok':
+                        if not state['failed']:
+                            state['processed_ok'].extend(offs)
+                        d.callback(None)
+                    else:
+                        state['failed'] = True
+                        d.errback(Failure(RuntimeError('processor failed')))
+                elif ev == 'commit':
+                    script.append('commit')
+                    c.commit().addErrback(lambda f: None)
+                elif ev == 'stop':
+                    if c._start_d is not None:
+                        script.append('stop')
+                        c.stop()
+                        state['stopped'] = True
+                        world['stopped'] = True
+                elif ev == 'shutdown':
+                    if c._start_d is not None and not c._shutdown_d:
+                        script.append('shutdown')
+                        c.shutdown().addBoth(shutdown_results.append)
+            except Hit:
+                raise
+            except Exception as e:
+                raise Hit('C13:unexpected-exception-%s' % type(e).__name__, '%s in %s' % (e, ev))
+            if c._start_d is None and not state['stopped']:
+                state['stopped'] = True
+                world['stopped'] = True
+            for res in shutdown_results:
+                if not isinstance(res, Failure) and group and c._last_processed_offset is not None \
+                        and c._last_committed_offset != c._last_processed_offset:
+                    raise Hit('C13:shutdown-succeeded-with-uncommitted-progress',
+                              (c._last_committed_offset, c._last_processed_offset))
+            check()
+        # C02: what was delivered is a gap-free run of the log starting at the position the consumer was started from
+        flat = [o for b in invoked for o in b]
+        if flat:
+            if start == OFFSET_EARLIEST:
+                first = log[0]
+            elif start == OFFSET_COMMITTED:
+                first = None          # decided by the committed offset the broker reported
+            else:
+                first = min(o for o in log if o >= start)
+            i0 = log.index(flat[0])
+            if first is not None and flat[0] != first:
+                raise Hit('C02:delivery-does-not-start-at-the-requested-position', (flat[0], first))
+            if flat != log[i0:i0 + len(flat)]:
+                raise Hit('C02:log-entry-skipped-or-repeated', (flat, log[i0:i0 + len(flat)]))
+        for res in start_results:
+            if isinstance(res, Failure):
+                res.trap(Exception)
+    return _run(rnd, n, one)
+
+
+SCENARIOS['consumer_e2e'] = scenario_consumer_e2e
